@@ -47,7 +47,7 @@ def run(ctx):
     rule_gate(ctx, ci)
     ctx.floor("R-C13-1", 2)
     ctx.floor("R-C13-2", 5)
-    ctx.floor("R-C13-3", 1)
+    ctx.floor("R-C13-3", 4)
     ctx.floor("R-C13-4", 12)
     ctx.floor("R-C13-5", 3)
     ctx.floor("R-C13-6", 1)
@@ -59,7 +59,7 @@ def _place_paths(ctx, ci, notes_factory, summaries=None):
 
     def mk():
         old = [[Opaque("b0"), Opaque("v0"), None]]
-        return [bar_obj(ci, bar=old, current_beat=cb, length=ln, meter=(Opaque("m0"), Opaque("m1")), key=Opaque("key")), notes_factory(), d]
+        return [bar_obj(ci, bar=old, current_beat=cb, length=ln, meter=(4, 4), key=Opaque("key")), notes_factory(), d]
 
     def mk_interp(ch):
         it = Interp(ctx.repo, ch, summaries=summaries)
@@ -149,7 +149,9 @@ def rule_undo(ctx, ci):
     R = "R-C13-3"
     fi = ctx.repo.find_method(ci, "remove_last_entry")
     cb, v1 = RatFun.var("beat"), RatFun.var("v1")
-    e0, e1 = [Opaque("b0"), Opaque("v0"), None], [Opaque("b1"), v1, Opaque("c1")]
+    # the state satisfies the bar's invariant: the last entry starts 1/value before the current beat
+    start1 = RatFun(cb.num * v1.num - v1.den * cb.den, cb.den * v1.num)
+    e0, e1 = [Opaque("b0"), Opaque("v0"), None], [start1, v1, Opaque("c1")]
 
     def mk():
         return [bar_obj(ci, bar=[e0, e1], current_beat=cb, length=RatFun.var("length"))]
@@ -160,10 +162,31 @@ def rule_undo(ctx, ci):
         nb = RatFun.of(b.attrs.get("current_beat"))
         lst = b.attrs.get("bar")
         if nb is None or not nb.same(RatFun(cb.num * v1.num - v1.den * cb.den, cb.den * v1.num)):
-            ok, why = False, "current beat becomes %r, expected beat - 1/value of the last entry" % (b.attrs.get("current_beat"),)
+            ok, why = False, "current beat becomes %r, expected the beat the last entry started on (beat - 1/value)" % (b.attrs.get("current_beat"),)
         elif not (isinstance(lst, list) and len(lst) == 1 and lst[0] is e0):
             ok, why = False, "entries become %r, expected all but the last" % (lst,)
     ctx.check(ok, R, "remove_last_entry", fi.where(), "Bar.remove_last_entry()", why)
+    # in floats too: removing what was placed leaves exactly the beat it was placed on (no rounding residue that a
+    # later place_notes_at(beat) would miss, no drift over place / remove cycles)
+    fp = ctx.repo.find_method(ci, "place_notes")
+    for label, values in (("quarter, triplet-half", [4, 3]), ("half, triplet-half", [2, 3]), ("sixth, fifth, seventh", [6, 5, 7])):
+        def go(it, values=values):
+            b = bar_obj(ci, bar=[], current_beat=0.0, length=1.0, meter=(4, 4), key=Opaque("key"))
+            beats = []
+            for v in values:
+                beats.append(b.attrs["current_beat"])
+                it.call_function(fp, [b, None, v], {})
+            after = []
+            for _ in values:
+                it.call_function(fi, [b], {})
+                after.append(b.attrs["current_beat"])
+            return beats, after
+        ps = explore(lambda ch: Interp(ctx.repo, ch), go)
+        ok_ = len(ps) == 1 and ps[0].kind == "return" and list(reversed(ps[0].value[0])) == ps[0].value[1]
+        ctx.check(ok_, R, "remove_last_entry.exact[%s]" % label, fi.where(), "place %s, then remove them again" % values,
+                  "the current beat after each removal is %s, the entries had started on %s" % (
+                      ps[0].value[1] if len(ps) == 1 and ps[0].kind == "return" else [(p_.kind, p_.value) for p_ in ps],
+                      list(reversed(ps[0].value[0])) if len(ps) == 1 and ps[0].kind == "return" else "?"))
 
 
 def rule_derived(ctx, ci):
@@ -212,13 +235,14 @@ def rule_derived(ctx, ci):
     f = repo.find_method(ci, "is_full")
     cases = [("unbounded", 0.0, FInt(0, 100), [[1, 1, None]], False), ("empty", 1.0, 0.0, [], False),
              ("exactly-full", 1.0, 1.0, [[0, 1, None]], True), ("within-tolerance", 1.0, FInt(Fraction(9991, 10000), 1), [[0, 1, None]], True),
-             ("not-full", 1.0, FInt(0, Fraction(9989, 10000)), [[0, 2, None]], False), ("3/4-full", 0.75, FInt(Fraction(7491, 10000), Fraction(3, 4)), [[0, 1, None]], True)]
+             ("not-full", 1.0, FInt(0, Fraction(9989, 10000)), [[0, 2, None]], False), ("zero-length", 0.0, 0.25, [[0, 4, None]], True), ("3/4-full", 0.75, FInt(Fraction(7491, 10000), Fraction(3, 4)), [[0, 1, None]], True)]
     for label, ln_, cb_, entries, want in cases:
         def mk_interp(ch):
             it = Interp(repo, ch)
             fint_builtin_wrap(it)
             return it
-        paths = explore(mk_interp, lambda it: it.call_function(f, [bar_obj(ci, length=ln_, current_beat=cb_, bar=list(entries))], {}))
+        meter_ = (0, 0) if label == "unbounded" else ((0, 4) if label == "zero-length" else (4, 4))
+        paths = explore(mk_interp, lambda it: it.call_function(f, [bar_obj(ci, length=ln_, current_beat=cb_, bar=list(entries), meter=meter_)], {}))
         ok = bool(paths) and all(p.kind == "return" and p.value is want for p in paths)
         ctx.check(ok, R, "is_full[%s]" % label, f.where(), "Bar.is_full() [%s]" % label, "gives %s, expected %s" % ([(p.kind, p.value) for p in paths], want))
 
@@ -306,5 +330,13 @@ def rule_gate(ctx, ci, R="R-C13-6"):
                               "a tolerance between %s and %s decides exactly like rational arithmetic" % (float(const), float(TOL_MIN), float(TOL_MAX)))
             break
     ctx.check(ok, R, "gate", fi.where(), "Bar.place_notes: accepting comparison", why)
-    ctx.check(unbounded, R, "gate.unbounded", fi.where(), "Bar.place_notes: length == 0 escape",
-              "the unbounded (0, 0) meter must always accept: no 'length == 0' test decides acceptance")
+    # the unbounded (0, 0) meter always accepts; a bar of length zero in another meter, e.g. (0, 4), accepts nothing
+    for label, meter_, want in (("(0, 0)", (0, 0), True), ("(0, 4)", (0, 4), False)):
+        def go(it, meter_=meter_):
+            b = bar_obj(ci, bar=[], current_beat=0.0, length=0.0, meter=meter_, key=Opaque("key"))
+            return it.call_function(fi, [b, nc, 4], {}), len(b.attrs["bar"])
+        ps = explore(lambda ch: Interp(ctx.repo, ch), go)
+        ok_ = len(ps) == 1 and ps[0].kind == "return" and ps[0].value == (want, 1 if want else 0)
+        ctx.check(ok_, R, "gate.unbounded%s" % label, fi.where(), "Bar.place_notes in meter %s (length 0)" % label,
+                  "a quarter note placed in an empty bar of meter %s gives %s: %s" % (label, [(p_.kind, p_.value) for p_ in ps],
+                                                                                   "the unbounded meter must always accept" if want else "a bar of length zero has no room"))
